@@ -30,7 +30,7 @@ func init() {
 		ID: "C04", Fn: c04,
 		Rule:        "one evaluation = one position reached by play (incl. games of 1100+ plies with a one/two-ply look-ahead taken back after every move near each wrap of the 512-entry history) whose incremental observables are compared with a fresh position from its FEN and with sums over the board; key function: two-way dictionary canonical(placement,side,rights,ep) <-> key over played positions, FEN-built positions (incl. FENs with ep square), transposed move orders and minimally different neighbours; distinct = distinct canonical identities entered in the dictionary",
 		Assumptions: []string{"published per-piece values = PieceType.ValueOf / PosMidValue / PosEndValue / GamePhaseValue; GamePhase = min(24, sum)"},
-		Required:    []string{"played_positions", "fen_with_ep", "transposition_pairs", "neighbour_pairs", "dict_entries", "promotion_plies_full_officers", "long_games", "long_game_lookaheads"},
+		Required:    []string{"played_positions", "fen_with_ep", "transposition_pairs", "neighbour_pairs", "dict_entries", "promotion_plies_full_officers", "long_games", "long_game_lookaheads", "null_move_positions", "null_move_with_pending_ep"},
 		MinEvals:    10000,
 	})
 }
@@ -533,6 +533,7 @@ func c04(c *Ctx) {
 	nPlay := c.Size(700, 75000)
 	nSynth := c.Size(2500, 600000)
 	sampled := 0
+	nr := SubRng(c.Seed, "c04/null", c.Shard)
 	forEachGame(c, "c04", nPlay, 110, nSynth, func(g Game) {
 		p := engPos(g.Start.FEN())
 		over24 = false
@@ -555,6 +556,27 @@ func c04(c *Ctx) {
 			p.DoMove(toEng(st.Move))
 			rep.Inc("played_positions")
 			checkFresh(p, moveClass(st.Before, st.Move), map[string]interface{}{"start": g.Start.FEN(), "moves": stepMoves(g.Steps, i+1)})
+			// the search also passes the move ("null move") and plays on from there: those are
+			// positions too, reached by one more kind of step
+			if nr.Chance(0.25) && !st.After.InCheck(st.After.White) {
+				p.DoNullMove()
+				rep.Inc("null_move_positions")
+				if st.After.Ep >= 0 {
+					rep.Inc("null_move_with_pending_ep")
+				}
+				nctx := map[string]interface{}{"start": g.Start.FEN(), "moves": stepMoves(g.Steps, i+1), "then": "null move"}
+				checkFresh(p, "after-null-move", nctx)
+				if nb, err := rc.ParseFEN(p.StringFen()); err == nil && nb.Validate() == nil {
+					if ms := nb.Legal(); len(ms) > 0 {
+						m := ms[nr.Intn(len(ms))]
+						p.DoMove(toEng(m))
+						nctx["then"] = "null move, " + m.UCI()
+						checkFresh(p, "after-null-move+move", nctx)
+						p.UndoMove()
+					}
+				}
+				p.UndoNullMove()
+			}
 		}
 		if sampled < 2 && len(g.Steps) > 0 {
 			sampled++
